@@ -198,22 +198,33 @@ def run(R):
         else:
             R.violation("C01.options", fld, "column option `%s` is parsed but never read by the extraction subgraph (the modifier is ignored)" % fld,
                         [exf.loc()])
-    # trim controls str::trim
-    tr = [c for c in exf.calls if short(c.name) == "core::str::<impl str>::trim"]
-    trsw = []
-    for (bb, s) in PR.field_reads(exf, "trim"):
-        if isinstance(s, dict) and s.get("switch"):
-            trsw.append(bb)
+    # trim controls str::trim: in whichever function of the extraction subgraph the option is read
+    trim_ok = None
+    for k in sorted(reach):
+        g = P.fns[k]
+        tr = [c for c in g.calls if short(c.name) == "core::str::<impl str>::trim"]
+        if not tr:
             continue
-        l = s["pl"]["l"]
-        for sw in sorted(exf.reach):
-            t = exf.blocks[sw]["term"]
-            if t["k"] == "switch" and t["discr"]["k"] in ("copy", "move") and t["discr"]["pl"]["l"] == l and not t["discr"]["pl"]["p"]:
-                trsw.append(sw)
-    if tr and trsw and PR.dominated_by_edge(exf, tr[0].bb, trsw[0], exf.blocks[trsw[0]]["term"]["otherwise"]):
-        R.ok("C01.options", "trim->str::trim", "str::trim applied exactly under options.trim", tr[0].loc())
-    else:
-        R.violation("C01.options", "trim->str::trim", "TRIM no longer controls a call to str::trim in TableDefinition::extract", [exf.loc()])
+        trsw = []
+        for (bb, st) in PR.field_reads(g, "trim"):
+            if isinstance(st, dict) and st.get("switch"):
+                trsw.append(bb)
+                continue
+            l = st["pl"]["l"]
+            for sw in sorted(g.reach):
+                t = g.blocks[sw]["term"]
+                if t["k"] == "switch" and t["discr"]["k"] in ("copy", "move") and t["discr"]["pl"]["l"] == l and not t["discr"]["pl"]["p"]:
+                    trsw.append(sw)
+        for c in tr:
+            under = any(PR.dominated_by_edge(g, c.bb, sw, g.blocks[sw]["term"]["otherwise"]) for sw in trsw)
+            trim_ok = (trim_ok is not False) and under
+            if not under:
+                R.violation("C01.options", "trim->str::trim", "%s calls str::trim outside the TRIM option's branch: values of columns without TRIM "
+                                                              "lose their surrounding whitespace" % g.path, [c.loc()])
+            else:
+                R.ok("C01.options", "trim->str::trim", "str::trim applied exactly under options.trim (in %s)" % g.spath.split("::")[-1], c.loc())
+    if trim_ok is None:
+        R.violation("C01.options", "trim->str::trim", "TRIM no longer controls a call to str::trim in the extraction subgraph", [exf.loc()])
     # default reaches extract_using_regex
     cpe = R.need_fn("sqlgrep::data_model::ColumnParsing::extract")
     calls = [c for c in cpe.calls if short(c.name) == EUR]
